@@ -219,6 +219,10 @@ def check(ctx):
     with ctx.shared({"C10.R3": ("C07.R7", "the purge really empties the socket's share of the router-key table: the removal walk moves one entry at a "
                                 "time and ends only at the end of the list (or on failure)")}):
         C10.r_walks(ctx, only=["spki_table_src_remove"])
+    from specs import C03
+    with ctx.shared({"C03.R6": ("C07.R8", "a failed exchange is seen as failed all the way up (no status dropped, no failure code mistaken for success), so "
+                                "it cannot refresh the expiry timestamp")}):
+        C03.r6(ctx, retsets)
     ctx.not_decided("real time: the check is about which comparison is made and what follows it, not about clocks")
 
 
